@@ -454,6 +454,7 @@ def rule_loops(ctx):
     _, rows = audit.load("loops")
     n = 0
     used = set()
+    flagged = {}
     for k, f in sorted(fx.fns.items()):
         if f["crate"] not in ZONE or "{promoted" in k:
             continue
@@ -512,15 +513,35 @@ def rule_loops(ctx):
             if not problems:
                 res.inst(ikey, f["sp"]["file"], line, "ok", nontrivial=False)
                 continue
-            row = rows.get(k)
-            if row and len([1 for hh, bb in loops.items() if hh <= h]) <= int(row.get("loops", 1)) + 10:
+            flagged.setdefault(k, []).append((ikey, f["sp"]["file"], line, problems[0][0], f["crate"]))
+    # audited loops: by function; a loop that moved to another function of the same crate (the audited function has lost one) keeps its row
+    spare = {}
+    pending = []
+    for k, row in rows.items():
+        have = len(flagged.get(k, []))
+        allowed = int(row.get("loops", 1))
+        crate = fx.fns[k]["crate"] if k in fx.fns else k.lstrip("<").split("::")[0]
+        if have < allowed:
+            spare.setdefault(crate, []).extend([row] * (allowed - have))
+    for k, lst in sorted(flagged.items()):
+        row = rows.get(k)
+        allowed = int(row.get("loops", 1)) if row else 0
+        for i, (ikey, file_, line, blk, crate) in enumerate(lst):
+            if i < allowed:
                 used.add(k)
-                res.inst(ikey, f["sp"]["file"], line, "audited", row["reason"])
-                continue
-            res.inst(ikey, f["sp"]["file"], line, "violation")
-            res.violate(ikey, "%s has a loop (line %s) that is left on a condition other than the exhaustion of an iterator or a popped collection "
-                        "(a cycle through block %d avoids every next()/pop() whose `None` leaves the loop): nothing in the structure of the code bounds the number of iterations" % (k, line, problems[0][0]),
-                        f["sp"]["file"], line)
+                res.inst(ikey, file_, line, "audited", row["reason"])
+            else:
+                pending.append((k, ikey, file_, line, blk, crate))
+    for k, ikey, file_, line, blk, crate in pending:
+        if spare.get(crate):
+            row = spare[crate].pop()
+            used.add(row["key"])
+            res.inst(ikey, file_, line, "audited", "moved from %s: %s" % (row["key"].split("::")[-1], row["reason"]))
+            continue
+        res.inst(ikey, file_, line, "violation")
+        res.violate(ikey, "%s has a loop (line %s) that is left on a condition other than the exhaustion of an iterator or a popped collection "
+                    "(a cycle through block %d avoids every next()/pop() whose `None` leaves the loop): nothing in the structure of the code bounds the number of iterations" % (k, line, blk),
+                    file_, line)
     res.inst("loops=%d" % n, None, None, "ok", "%d natural loops examined, %d functions audited" % (n, len(used)))
     res.require_floor(60)
     return res
